@@ -169,11 +169,16 @@ def flip(t):
 
 
 # ---------------------------------------------------------------------------- TLC configs
-def gen_cfg(mode: str, ctx: Ctx, dev: str = "none", invs=()) -> str:
+def gen_cfg(mode: str, ctx: Ctx, dev: str = "", invs=(), tiny: bool = False) -> str:
     q = ctx.quick
+    if tiny:
+        return ("SPECIFICATION Spec\nCONSTANTS\n"
+                f' Deviation = {{{dev}}}\n Mode = "{mode}"\n IntMags = {{1}}\n CPs = {{101, 233}}\n BAlpha = {{101}}\n'
+                " MaxAtom = 1\n MaxElems = 1\n ByteAlpha = {48}\n MaxRaw = 1\n"
+                + "".join(f"INVARIANT {i}\n" for i in invs) + "CHECK_DEADLOCK FALSE\n")
     return (
         "SPECIFICATION Spec\nCONSTANTS\n"
-        f' Deviation = "{dev}"\n Mode = "{mode}"\n'
+        f' Deviation = {{{dev}}}\n Mode = "{mode}"\n'
         " IntMags = {0, 1, 10, 999999999}\n"
         + (" CPs = {48, 58, 101, 105, 233}\n BAlpha = {48, 49, 58, 101, 105, 195, 169}\n MaxAtom = 2\n MaxElems = 2\n"
            if q else
@@ -319,7 +324,7 @@ def replay_case(ctx: Ctx, x) -> None:
 def validate(ctx: Ctx, cases: list, what: str) -> dict:
     f = ctx.tmp(f"cases_{what}.json")
     f.write_text(json.dumps(cases))
-    cfg = 'SPECIFICATION Spec\nCONSTANTS\n Deviation = "none"\nINVARIANT Verdict\nCHECK_DEADLOCK FALSE\n'
+    cfg = "SPECIFICATION Spec\nCONSTANTS\n Deviation = {}\nINVARIANT Verdict\nCHECK_DEADLOCK FALSE\n"
     # deep (non tail) recursion over long strings: TLC worker threads need a larger Java stack
     res = run_tlc("common/Bencode_Trace.tla", cfg, ctx.scratch, workers=4,
                   env={"TRACE_FILE": str(f), "JAVA_TOOL_OPTIONS": "-Xss256m"},
@@ -338,40 +343,35 @@ def run(ctx: Ctx) -> None:
                "CPython str/bytes ordering and UTF-8 codec")
     hashes: dict = {}
 
-    # ---- 1. laws on the bounded universe + emission of every case (spec -> code) -------------
-    res = expect_clean(run_tlc("common/Bencode_Gen.tla", gen_cfg("laws", ctx, invs=LAW_INVS + ("Emit",)),
-                               ctx.scratch, workers=4, deadlock=False, timeout=1500, heap="8g"),
+    # ---- 1. one TLC run: laws on the bounded universe (every case emitted), pairwise injectivity /
+    #         prefix-freeness on the reduced universe, decoder run over all short byte strings ---------
+    res = expect_clean(run_tlc("common/Bencode_Gen.tla", gen_cfg("all", ctx, invs=LAW_INVS + ("LawPair", "Emit")),
+                               ctx.scratch, workers=4, deadlock=False, timeout=2400, heap="8g"),
                        "Bencode.tla laws")
     ctx.add_tlc(res)
     cases = res.recs("CASE")
-    ctx.require(len(cases) == res.distinct and len(cases) > 3000, f"emitted {len(cases)} of {res.distinct} cases")
+    ctx.require(len(cases) > 3000, f"emitted only {len(cases)} cases")
     ctx.note("universe_size", len(cases))
+    ctx.note("pair_states", res.distinct - len(cases) - len(res.recs("RAW")))
     for c in cases:
         check_case(ctx, c["x"], c["enc"], c["dec"], "tlc-universe", hashes)
     sc = next(c for c in cases if c["x"]["k"] == "dict" and len(c["x"]["v"]) == 2 and c["enc"] != ERR)
     ctx.sample({"source": "tlc-universe", "x": repr(to_py(sc["x"])), "spec_enc": repr(bytes(sc["enc"])),
                 "spec_dec": json.dumps(sc["dec"], separators=(",", ":"))})
 
-    # ---- 2. pairwise injectivity / prefix-freeness on the reduced universe --------------------
-    res = expect_clean(run_tlc("common/Bencode_Gen.tla", gen_cfg("pairs", ctx, invs=("LawPair",)),
-                               ctx.scratch, workers=4, deadlock=False, timeout=1500), "Bencode.tla pairwise")
-    ctx.add_tlc(res)
-    ctx.note("pairs_checked", res.distinct)
-    # model-level negative controls: the seeded model defects must break the named law
-    for dev, mode, inv in (("bool_as_int", "pairs", "LawPair"), ("no_sort", "laws", "LawKeyOrder"),
-                           ("charlen", "laws", "LawRoundTrip")):
-        r = expect_violation(run_tlc("common/Bencode_Gen.tla", gen_cfg(mode, ctx, dev=dev, invs=(inv,)),
-                                     ctx.scratch, workers=4, deadlock=False, timeout=600),
-                             inv, f"Bencode.tla control {dev}")
-        ctx.add_tlc(r)
-        ctx.negative_control(True, f"model with seeded defect '{dev}' violates {inv}")
+    # ---- 2. model-level negative control: seeded model defects must break the named laws ----------
+    r = run_tlc("common/Bencode_Gen.tla",
+                gen_cfg("ctl", ctx, dev='"bool_as_int", "no_sort", "charlen"',
+                        invs=("LawReject", "LawKeyOrder", "LawRoundTrip"), tiny=True),
+                ctx.scratch, workers=1, deadlock=False, timeout=600, extra=["-continue"])
+    ctx.require(r.error is None, f"TLC error in the seeded-defect control: {r.error}")
+    ctx.add_tlc(r)
+    for inv, dev in (("LawReject", "bool_as_int"), ("LawKeyOrder", "no_sort"), ("LawRoundTrip", "charlen / no_sort")):
+        ctx.negative_control(inv in r.violated, f"model with seeded defect '{dev}' violates {inv}")
 
     # ---- 3. decoder conformance on arbitrary byte strings (as-built drift, not C14) ------------
-    res = run_tlc("common/Bencode_Gen.tla", gen_cfg("bytes", ctx, invs=("Emit",)), ctx.scratch, workers=4,
-                  deadlock=False, timeout=1500, heap="8g")
-    expect_clean(res, "Bencode.tla raw decoder run")
-    ctx.add_tlc(res)
     raws = res.recs("RAW")
+    ctx.require(len(raws) > 4000, f"emitted only {len(raws)} raw byte strings")
     drift = []
     for r in raws:
         d = real_dec(r["b"])
@@ -389,10 +389,10 @@ def run(ctx: Ctx) -> None:
               f"(as-built drift, not part of C14), e.g. {drift[0]}")
 
     # ---- 4. code -> spec: generated larger structures, recorded, validated by TLC -------------
-    n = ctx.pick(2500, 20000)
+    n = ctx.pick(1200, 20000)
     recs = []
     for _ in range(n):
-        x = gen_struct(ctx.rng, ctx.rng.choice([1, 2, 3, 4, 5]), allow_bad=ctx.rng.random() < 0.15)
+        x = gen_struct(ctx.rng, ctx.rng.choice([1, 2, 3, 4] if ctx.quick else [1, 2, 3, 4, 5]), allow_bad=ctx.rng.random() < 0.15)
         y = mutate(ctx.rng, x)
         enc, _ = real_enc(to_py(x))
         recs.append({"x": x, "y": y, "enc": enc, "ency": real_enc(to_py(y))[0],
